@@ -233,6 +233,51 @@ func runL0(seed int64, n int, dir string) error {
 			}
 			emit("layer", in, out)
 		}
+		// --- Key.Layer of two keys that may be equal in SQLite's order
+		{
+			var a, b sval
+			switch g.r.Intn(4) {
+			case 0: // numerically equal INTEGER / REAL
+				x := int64(g.r.Intn(41) - 20)
+				if g.r.Intn(3) == 0 {
+					x = boundaryInts[g.r.Intn(len(boundaryInts))]
+				}
+				if float64(x) != float64(int64(float64(x))) || x > 1<<53 || x < -(1<<53) {
+					x = int64(g.r.Intn(1000))
+				}
+				a = sval{tag: 'I', i: x}
+				b = sval{tag: 'R', bits: math.Float64bits(float64(x))}
+			case 1: // the two zeros
+				a = sval{tag: 'R', bits: 0}
+				b = sval{tag: 'R', bits: 1 << 63}
+			case 2: // identical
+				a = g.sval(false, false)
+				b = a
+			default:
+				a, b = g.sval(false, false), g.sval(false, false)
+			}
+			if g.r.Intn(2) == 0 {
+				a, b = b, a
+			}
+			bf := []uint{2, 3, 4, 5, 16, 4096}[g.r.Intn(6)]
+			in, out := &tw{}, &tw{}
+			in.sval(a)
+			in.sval(b)
+			in.z(int64(bf))
+			var la, lb uint8
+			if catch(func() { la = s3db.NewKey(a.goValue()).Layer(bf); lb = s3db.NewKey(b.goValue()).Layer(bf) }) {
+				out.s("P")
+			} else {
+				out.i(int(la))
+				out.i(int(lb))
+				if la != lb {
+					stats["layerpair_differ"]++
+				} else {
+					stats["layerpair_same"]++
+				}
+			}
+			emit("layerpair", in, out)
+		}
 		// --- MergeRows
 		{
 			nc := g.r.Intn(4)
